@@ -86,6 +86,12 @@ def gen_case(streams, tier):
             # repaired in place
             'fail_first': {'k': f.randrange(0, 60), 'rom_repair': f.random() < 0.5}
             if f.random() < 0.35 else None,
+            # a first simulator is constructed on the very SimulationTrace of the traced run, from
+            # another start state, and abandoned before its first step
+            'abandoned_first': {'kind': f.choice(['sim', 'fast']),
+                                'init': gen.gen_init(random.Random(f.getrandbits(32)), script,
+                                                     allow_default=True)}
+            if f.random() < 0.3 else None,
             'sched': world.gen_sched(streams)}
 
 
@@ -269,7 +275,12 @@ def run(case, res):
     kind = case['kind']
     live = replica.Live.from_built(b)
     try:
-        sim = replica.make_sim(kind, live, init, tracer=None)
+        ab = case.get('abandoned_first')
+        tr_obj = None
+        if ab:
+            tr_obj = replica.make_sim(ab['kind'], live, ab['init'], tracer=None).tracer
+            res.faults.hit('simulator_abandoned_on_the_same_trace')
+        sim = replica.make_sim(kind, live, init, tracer=None, tracer_obj=tr_obj)
         n_ok = 0
         for cyc in tape:
             sim.step(dict(cyc))
@@ -421,6 +432,8 @@ def candidates(case):
         c['script'] = s
         c['init'] = shrink.remap_init(case['init'], s)
         c['cycles'] = shrink.remap_cycles(case['cycles'], s)
+        if case.get('abandoned_first'):
+            c['abandoned_first']['init'] = shrink.remap_init(case['abandoned_first']['init'], s)
         s.pop('_memremap', None)
         if case.get('stage'):
             c['stage'] = gen.restage(s)
@@ -432,6 +445,10 @@ def candidates(case):
     if case.get('fail_first'):
         c = copy.deepcopy(case)
         c['fail_first'] = None
+        yield c
+    if case.get('abandoned_first'):
+        c = copy.deepcopy(case)
+        c['abandoned_first'] = None
         yield c
     if case['init'].get('regs') or case['init'].get('mems') or case['init'].get('default'):
         for part in ('regs', 'mems', 'default'):
